@@ -534,6 +534,7 @@ func TestC09(t *testing.T) {
 
 	// two dialects with different definitions of ids 0 and 66 side by side
 	c09twins(rep, r, genv)
+	c09extEarly(rep, vh.Sub(seed, "c09-extearly"))
 	// successive links of one endpoint (the link goes down and comes back): every one starts counting at 0; and what the
 	// peer sends (its protocol version) has no say in what the node originates
 	c09generations(rep, r, genv)
@@ -630,6 +631,57 @@ func (*MessageTwinSixtySix) GetID() uint32 { return 66 }
 
 // c09twins interleaves writers (stream writers and nodes) of the main dialect and of the twin dialect; every frame's
 // checksum must be the one of its own dialect's definition, whichever dialect used the id first.
+// c09extEarly: v1 output of a struct whose Go declaration has an extension field before a regular one.
+func c09extEarly(rep *vh.Report, r *vh.RNG) {
+	lay, err := ref.LayoutOf(reflect.TypeOf(MessageVfExtEarly{}))
+	if err != nil {
+		rep.HarnessError("C09 ext-early: " + err.Error())
+		return
+	}
+	genv, err := newGateEnv([]*msgInfo{{Name: "user.MessageVfExtEarly", Msg: &MessageVfExtEarly{}, Type: reflect.TypeOf(MessageVfExtEarly{}), Layout: lay}})
+	if err != nil {
+		rep.Observe("C09 ext-early: the library refuses the struct: " + err.Error())
+		return
+	}
+	for _, api := range []string{"streamwriter", "framewriter"} {
+		rw := &recWriter{}
+		var write func(m message.Message) error
+		if api == "streamwriter" {
+			fw := &frame.Writer{ByteWriter: rw, DialectRW: genv.drw}
+			_ = fw.Initialize()
+			sw := &streamwriter.Writer{FrameWriter: fw, Version: streamwriter.V1, SystemID: 5, ComponentID: 6}
+			if err := sw.Initialize(); err != nil {
+				rep.HarnessError(err.Error())
+				return
+			}
+			write = sw.Write
+		} else {
+			fw := &frame.Writer{ByteWriter: rw, DialectRW: genv.drw, OutVersion: frame.V1, OutSystemID: 5, OutComponentID: 6}
+			_ = fw.Initialize()
+			write = fw.WriteMessage
+		}
+		for i := 0; i < 64; i++ {
+			m := &MessageVfExtEarly{A: 1 + r.Byte()%250, X: 1 + r.Byte()%250, B: 1 + r.Byte()%250}
+			rw.reset()
+			rep.Eval(1)
+			rep.Count("v1_frames_of_a_struct_with_an_early_extension", 1)
+			if err := write(m); err != nil {
+				rep.Violation("api="+api+" what=v1ext", "a struct with an extension declared before a regular field was refused on v1: "+err.Error(), nil)
+				break
+			}
+			f, _, st := ref.ParseAt(rw.all(), 0)
+			if st != ref.ParseOK || f.Version != 1 || !bytes.Equal(f.Payload, []byte{m.A, m.B}) {
+				rep.Violation("api="+api+" what=v1ext", fmt.Sprintf("v1 payload of {A:%d X(ext):%d B:%d} is %v: it must carry the regular fields only (A, B)", m.A, m.X, m.B, f.Payload), vh.Hex(rw.all()))
+				break
+			}
+			if f.Checksum != ref.ChecksumOfWire(rw.all(), lay.CRCExtra) {
+				rep.Violation("api="+api+" what=checksum", "checksum is not correct for the message's CRC_EXTRA (extension declared early)", vh.Hex(rw.all()))
+				break
+			}
+		}
+	}
+}
+
 func c09twins(rep *vh.Report, r *vh.RNG, main *gateEnv) {
 	var twinInfos []*msgInfo
 	for _, m := range []message.Message{&MessageTwinZero{}, &MessageTwinSixtySix{}} {
